@@ -86,16 +86,16 @@ TABLE = {
         ("Proofs/ReplayP.v", ["replay_at_most_once", "replay_fresh_accepted", "replay_old_rejected", "replay_inv_init", "replay_inv_step", "accepted_stays_received"]),
         ("Proofs/NPacketP.v", ["decode_sound", "decode_duplicate", "decode_replay_rejected", "decode_keeps_replay_unless_opened"]),
         ("Proofs/NClientP.v", ["client_payload_only_connected"]),
-        ("Proofs/NServerP.v", ["payload_only_authentic"]),
+        ("Proofs/NAuthP.v", ["payload_only_authentic", "session_payloads_once", "payload_implies_valid_request", "replayed_is_noop"]),
     ], ""),
     "C05": ("Only a valid, unexpired, untampered token from its own address connects", [
-        ("Proofs/NAuthP.v", ["connected_implies_pending_match", "pending_implies_valid_request", "connected_implies_valid_request", "request_rejects", "token_bound_to_address", "token_rebinding_refuted"]),
+        ("Proofs/NAuthP.v", ["connected_implies_pending_match", "pending_implies_valid_request", "connected_implies_valid_request", "client_implies_valid_request", "request_rejects", "request_rejects_noop", "request_validates_sealed", "token_bound_to_address", "token_bound_request_dropped", "token_rebinding_refuted"]),
     ], ""),
     "C07": ("renetcode survives hostile datagrams and tokens; no state change", [
         ("Proofs/NPacketP.v", ["decode_no_panic", "decode_unopened_keeps_replay", "decode_duplicate"]),
         ("Proofs/TokenP.v", ["token_read_no_panic", "private_decode_no_panic"]),
         ("Proofs/NServerP.v", ["process_packet_no_panic", "update_client_no_panic", "nserver_disconnect_no_panic", "generate_payload_no_panic", "nsstep_no_panic", "time_since_no_panic"]),
-        ("Proofs/NAuthP.v", ["inauthentic_is_noop", "replayed_is_noop"]),
+        ("Proofs/NAuthP.v", ["inauthentic_is_noop", "unvalidated_request_is_noop", "request_from_connected_ignored", "replayed_is_noop", "replayed_is_noop_pending"]),
         ("Proofs/NClientP.v", ["client_no_panic", "client_inauthentic_is_noop"]),
     ], ""),
     "C10": ("Netcode connection table: unique ids, unique addresses, bounded", [
@@ -111,7 +111,10 @@ TABLE = {
     "C18": ("Netcode liveness", [
         ("Proofs/NClientP.v", ["client_retries", "client_failover", "client_times_out"]),
         ("Proofs/NServerP.v", ["server_times_out_silent", "server_keeps_live", "pending_expires", "response_connects"]),
-        ("Proofs/NAuthP.v", ["request_gets_challenge"]),
+        ("Proofs/NAuthP.v", ["request_gets_challenge", "handshake_connects"]),
+    ], ""),
+    "C20": ("UDP netcode transport keeps message and handshake layers in lock-step", [
+        ("Proofs/GlueP.v", ["nsstep_ids_step", "handle_result_lockstep", "tserver_update_lockstep", "tserver_update_events", "tserver_update_pushes_down", "app_step_lockstep", "tserver_send_lockstep", "tserver_disconnect_all_lockstep", "tclient_update_mirrors", "tclient_disconnect_spec", "client_recv_loop_spec", "recv_loop_surfaced", "payload_finds_connection", "wrun_inv", "world_events_alternate"]),
     ], ""),
     "C19": ("No traffic amplification", [
         ("Proofs/NServerP.v", ["no_amplification"]),
